@@ -284,6 +284,21 @@ pub fn traces() -> Vec<Trace> {
         seq.extend(y.iter().cloned());
         v.push(Trace { name: format!("two-connections/{n}/sequential"), frames: seq });
     }
+    // connections delivered in tiny segments (12 payload bytes each) under the framings without a 14-byte link header: the
+    // frames are as short as a bare Ethernet ACK, yet every one of them carries stream bytes
+    for link in [0u8, 2] {
+        for (v6, sport) in [(false, 443u16), (false, 80), (true, 443)] {
+            let (ci, si) = if v6 { (104usize, 120usize) } else { (8, 40) };
+            let c = crate::props::c10::Ep { port: 40040 + link as u16, ..eps[ci] };
+            let sv = crate::props::c10::Ep { port: sport, ..eps[si] };
+            let body: &[u8] = if sport == 443 { &hello } else { &req };
+            let mut conn = vec![wrap(link, &fb(&c, &sv, SYN, 1000, &[], false)), wrap(link, &fb(&sv, &c, SYN | ACK, 5000, &[], false))];
+            for (k, piece) in body.chunks(12).enumerate() {
+                conn.push(wrap(link, &fb(&c, &sv, ACK | PSH, 1001 + 12 * k as u32, piece, false)));
+            }
+            v.push(Trace { name: format!("tiny-segments/{}-{}-port{sport}/connection", if v6 { "v6" } else { "v4" }, LINKS[link as usize]), frames: conn });
+        }
+    }
     // Ethernet frames whose EtherType and IP version nibble disagree (EtherType IPv4 with nibble 5, 6, 0, 15; EtherType IPv6
     // with nibble 4, 7): every parser of the repository goes by the EtherType - a filter that goes by the nibble reads other
     // endpoints, or none and lets the frame pass
